@@ -299,9 +299,20 @@ annotated_commodity_t::find_price(const commodity_t * commodity,
     DEBUG("commodity.price.find", "target commodity: " << target->symbol());
 #endif
 
-  if (details.value_expr)
-    return find_price_from_expr(const_cast<expr_t&>(*details.value_expr),
-                                commodity, when);
+  if (details.value_expr && ! base->has_flags(COMMODITY_VALUE_EXPR_RUNNING)) {
+    base->add_flags(COMMODITY_VALUE_EXPR_RUNNING);
+    try {
+      optional<price_point_t> point =
+        find_price_from_expr(const_cast<expr_t&>(*details.value_expr),
+                             commodity, when);
+      base->drop_flags(COMMODITY_VALUE_EXPR_RUNNING);
+      return point;
+    }
+    catch (...) {
+      base->drop_flags(COMMODITY_VALUE_EXPR_RUNNING);
+      throw;
+    }
+  }
 
   return commodity_t::find_price(target, when, oldest);
 }
